@@ -5,5 +5,6 @@
 
 pub mod c10;
 pub mod c11;
+pub mod c15;
 pub mod c19;
 pub mod probe;
